@@ -260,6 +260,7 @@ func runCheck(o *CheckOpts) int {
 		}
 	}
 
+	oracleCache := map[string]*oracleOutcome{}
 	replayDir := filepath.Join(o.Verif, "out", "replay", o.Prop)
 	emit := func(ob *Obligation, name, kind, clause, where, status, solver, output string, tried []string) {
 		violations++
@@ -274,6 +275,36 @@ func runCheck(o *CheckOpts) int {
 		if status == "sat" {
 			if ob != nil {
 				confirmed = tryReplay(o, prog, ob, rep)
+			}
+		}
+		if !confirmed && ob != nil {
+			// counterexample search on the real code with the property's executable oracles
+			oracles := prog.oraclesFor(o.Prop, ob.Func)
+			if len(oracles) > 0 {
+				var names []string
+				for _, f := range oracles {
+					names = append(names, f.Name())
+				}
+				sort.Strings(names)
+				key := strings.Join(names, ",")
+				res, done := oracleCache[key]
+				if !done {
+					budget := 5
+					if o.Tier == "thorough" {
+						budget = 30
+					}
+					hit, why := runOracles(o, prog, oracles, budget)
+					res = &oracleOutcome{hit, why}
+					oracleCache[key] = res
+				}
+				if res.hit != nil {
+					confirmed = true
+					rep["counterexample"] = map[string]string{"oracle": res.hit.Oracle, "failing_assert": res.hit.Where, "input": res.hit.Input, "iteration": res.hit.Iter}
+					rep["replay"] = "oracle " + res.hit.Oracle + " (executable transcription of the property) fails on the real code at " + res.hit.Where + " for the recorded input"
+					rep["replay_output"] = res.hit.Output
+				} else {
+					rep["oracle_search"] = res.why
+				}
 			}
 		}
 		if status == "refuted" {
@@ -316,6 +347,16 @@ func runCheck(o *CheckOpts) int {
 		}
 	}
 
+	// slowest obligations (stability watch)
+	{
+		sorted := append([]*oblResult{}, ores...)
+		sort.Slice(sorted, func(i, j int) bool { return sorted[i].R.Seconds > sorted[j].R.Seconds })
+		for i := 0; i < len(sorted) && i < 3; i++ {
+			if sorted[i].R.Seconds > 2 {
+				fmt.Printf("slow: %.1fs %s %s [%s]\n", sorted[i].R.Seconds, sorted[i].R.Status, sorted[i].O.Name, strings.Join(sorted[i].R.Tried, " "))
+			}
+		}
+	}
 	wall := time.Since(start).Seconds()
 	fmt.Printf("property %s tier %s: %d functions, %d obligations, %d discharged, %d known findings, %d violations, %d covers, %.1fs wall, %.1fs solver\n",
 		o.Prop, o.Tier, len(fns), total, discharged, knownCount, violations, covers, wall, solverSeconds)
@@ -439,4 +480,9 @@ func runDump(prop, fnSub, oblSub, repo, verif string) int {
 		}
 	}
 	return 0
+}
+
+type oracleOutcome struct {
+	hit *oracleHit
+	why string
 }
